@@ -55,6 +55,10 @@ package xmlenc
 //@ -- prefixes - every lookup in a received element is by local name
 //@ assert@call[C10,C08] FindElement #each (el *etree.Element, path string) lookup_by_local_name: !strings.Contains(path, ":")
 //@ requires el: encryptedKey != nil
+//@ -- the cipher value of any peer: base64 as XML carries it (wrapped, indented). What is returned is the standard decoding
+//@ -- of the element's text, surrounding white space removed - the decoded bytes and nothing more
+//@ assert@return[C10,C08] #each (out []byte, rerr error) uses el=ciphertextEl? *etree.Element returns_the_decoded_cipher_value:
+//@    rerr == nil ==> el != nil && B64Decoded(base64.StdEncoding, strings.TrimSpace(el.Text()), out)
 
 //@ contract validateRSAKeyIfPresent
 //@ -- interoperability: etree matches a prefixed path segment against the literal prefix, and a peer chooses its own
@@ -68,9 +72,9 @@ package xmlenc
 //@ -- not match the supplied private key is rejected - a non-RSA certificate can never match)
 //@ import big "math/big"
 //@ import pem "encoding/pem"
-//@ assert@call[C11] Text #1 (e *etree.Element) reads_embedded_certificate:
+//@ assert@call[C11] Text #each (e *etree.Element) reads_embedded_certificate:
 //@    e == encryptedKey.FindElement("./KeyInfo/X509Data/X509Certificate")
-//@ assert@call[C11] ParseCertificate #1 (der []byte) uses certPEM *pem.Block parses_that_certificate:
+//@ assert@call[C11] ParseCertificate #each (der []byte) uses certPEM *pem.Block parses_that_certificate:
 //@    certPEM != nil && sameSlice(der, certPEM.Bytes)
 //@ -- (at every return, about the key being returned: whichever return statement a rewrite makes the successful one)
 //@ assert@return[C11] #each (k *rsa.PrivateKey, e error) uses cert=cert? *x509.Certificate, certSeen=reached:cert bool, pubKey=pubKey? *rsa.PublicKey, pubSeen=reached:pubKey bool certificate_matches_key:
@@ -93,16 +97,16 @@ package xmlenc
 //@ -- framing, the mirror image of Encrypt: a key of exactly the cipher's size keys the block cipher; the first block of
 //@ -- the cipher value is the IV and everything after it is decrypted as a whole; the result is that plaintext with the
 //@ -- xmlenc padding stripped (with the padding lemma and CBC decrypt-after-encrypt = identity this is the round trip)
-//@ assert@call[C10,C08] field:xmlenc.CBC.cipher #1 (fn func([]byte) (cipher.Block, error), k []byte) uses keyBuf []byte keys_cipher_with_given_key:
+//@ assert@call[C10,C08] field:xmlenc.CBC.cipher #each (fn func([]byte) (cipher.Block, error), k []byte) uses keyBuf []byte keys_cipher_with_given_key:
 //@    sameSlice(k, keyBuf) && len(k) == e.keySize
-//@ assert@call[C10,C08] NewCBCDecrypter #1 (b cipher.Block, ivArg []byte) uses block cipher.Block, iv []byte first_block_is_iv:
+//@ assert@call[C10,C08] NewCBCDecrypter #each (b cipher.Block, ivArg []byte) uses block cipher.Block, iv []byte first_block_is_iv:
 //@    b == block && sameSlice(ivArg, iv) && len(iv) == b.BlockSize()
 //@ -- (what is decrypted starts where the IV ends, in the same array, and ends where the decoded cipher value ends - said
 //@ -- through capacities, so that it does not matter whether `ciphertext` names the whole value or what follows the IV)
-//@ assert@call[C10,C08] CryptBlocks #1 (mode cipher.BlockMode, dst []byte, src []byte) uses iv []byte, ciphertext []byte, plaintext []byte decrypts_all_after_iv:
+//@ assert@call[C10,C08] CryptBlocks #each (mode cipher.BlockMode, dst []byte, src []byte) uses iv []byte, ciphertext []byte, plaintext []byte decrypts_all_after_iv:
 //@    sameArray(src, iv) && cap(iv) == cap(src)+len(iv) && sameArray(src, ciphertext) && cap(src)-len(src) == cap(ciphertext)-len(ciphertext) &&
 //@    sameSlice(dst, plaintext) && len(dst) == len(src)
-//@ assert@call[C10,C08] stripPadding #1 (buf []byte) uses plaintext []byte strips_padding_of_plaintext: sameSlice(buf, plaintext)
+//@ assert@call[C10,C08] stripPadding #each (buf []byte) uses plaintext []byte strips_padding_of_plaintext: sameSlice(buf, plaintext)
 //@ -- the other direction: once key, cipher and cipher value are in hand, the only cipher values turned away before
 //@ -- decryption are those that are not IV + whole blocks OF THIS CIPHER (8 bytes for 3DES, 16 for AES)
 //@ assert@return[C10,C08] #each (out []byte, rerr error) uses ct=ciphertext? []byte, ctSeen=reached:ciphertext bool, blk=block? cipher.Block, blkSeen=reached:block bool, modeSeen=reached:mode bool, lastErr=err? error rejects_only_broken_framing:
@@ -119,9 +123,9 @@ package xmlenc
 //@ -- C11: every byte of the cipher value goes through the AEAD: the first NonceSize bytes as the nonce, all the rest as
 //@ -- the sealed text (so any modification is rejected by Open, assumed authentic), no additional data, and plaintext is
 //@ -- returned only when Open succeeded
-//@ assert@call[C10,C11] field:xmlenc.GCM.cipher #1 (fn func([]byte) (cipher.Block, error), k []byte) uses keyBuf []byte keys_cipher_with_given_key:
+//@ assert@call[C10,C11] field:xmlenc.GCM.cipher #each (fn func([]byte) (cipher.Block, error), k []byte) uses keyBuf []byte keys_cipher_with_given_key:
 //@    sameSlice(k, keyBuf) && len(k) == e.keySize
-//@ assert@call[C10,C11] Open #1 (a cipher.AEAD, dst []byte, n []byte, sealed []byte, ad []byte) uses aesgcm cipher.AEAD, nonce []byte, text []byte opens_whole_value:
+//@ assert@call[C10,C11] Open #each (a cipher.AEAD, dst []byte, n []byte, sealed []byte, ad []byte) uses aesgcm cipher.AEAD, nonce []byte, text []byte opens_whole_value:
 //@    a == aesgcm && sameSlice(n, nonce) && sameSlice(sealed, text) && len(n) == a.NonceSize() && cap(n) == cap(sealed)+len(n) && len(ad) == 0
 //@ ensures[C11] nilonerr: err != nil ==> result == nil
 //@ assert@return[C10,C11] #last (out []byte, e2 error) uses aesgcm cipher.AEAD, nonce []byte, text []byte returns_what_open_authenticated:
@@ -134,11 +138,11 @@ package xmlenc
 //@ requires el: ciphertextEl != nil
 //@ requires[cfg] key: rsaKeyOK(key)
 //@ requires[cfg] fn: e.keyDecrypter != nil
-//@ assert@call[C10,C11,C08] field:xmlenc.RSA.keyDecrypter #1 (fn func(RSA, *rsa.PrivateKey, []byte) ([]byte, error), ea RSA, ka *rsa.PrivateKey) args_nonnil:
+//@ assert@call[C10,C11,C08] field:xmlenc.RSA.keyDecrypter #each (fn func(RSA, *rsa.PrivateKey, []byte) ([]byte, error), ea RSA, ka *rsa.PrivateKey) args_nonnil:
 //@    ea.DigestMethod != nil && ka != nil
-//@ assert@call[C10,C08] field:xmlenc.RSA.keyDecrypter #1 (fn func(RSA, *rsa.PrivateKey, []byte) ([]byte, error), ea RSA) digest_absent:
+//@ assert@call[C10,C08] field:xmlenc.RSA.keyDecrypter #each (fn func(RSA, *rsa.PrivateKey, []byte) ([]byte, error), ea RSA) digest_absent:
 //@    ciphertextEl.FindElement("./EncryptionMethod/DigestMethod") == nil ==> ea.DigestMethod == DigestMethod(SHA1)
-//@ assert@call[C10,C08] field:xmlenc.RSA.keyDecrypter #1 (fn func(RSA, *rsa.PrivateKey, []byte) ([]byte, error), ea RSA) digest_named:
+//@ assert@call[C10,C08] field:xmlenc.RSA.keyDecrypter #each (fn func(RSA, *rsa.PrivateKey, []byte) ([]byte, error), ea RSA) digest_named:
 //@    ciphertextEl.FindElement("./EncryptionMethod/DigestMethod") != nil ==>
 //@    ea.DigestMethod == digestMethods[ciphertextEl.FindElement("./EncryptionMethod/DigestMethod").SelectAttrValue("Algorithm", "")]
 
@@ -147,21 +151,21 @@ package xmlenc
 //@ ensures[C10,C08] nonnil: err == nil ==> result != nil
 //@ -- framing: what is encrypted is the padded plaintext, under an IV drawn in this call, and the
 //@ -- emitted cipher value is IV || ciphertext (the W3C xmlenc layout)
-//@ assert@call[C10,C08] CryptBlocks #1 (mode cipher.BlockMode, dst []byte, src []byte) pads_plaintext:
+//@ assert@call[C10,C08] CryptBlocks #each (mode cipher.BlockMode, dst []byte, src []byte) pads_plaintext:
 //@    len(src) >= len(plaintext) && forall(0, len(plaintext), func(k int) bool { return src[k] == plaintext[k] })
 //@ -- (whichever read of the random source fills it: the reads are not counted, a helper may do the others)
 //@ ghost func DrawnHere(p []byte) bool
 //@ derive@call[C10,C08] Read #each (r io.Reader, p []byte) iv_drawn_here:
 //@    r == RandReader |- DrawnHere(p)
-//@ assert@call[C10,C08] NewCBCEncrypter #1 (b cipher.Block, ivArg []byte) uses iv []byte fresh_iv:
+//@ assert@call[C10,C08] NewCBCEncrypter #each (b cipher.Block, ivArg []byte) uses iv []byte fresh_iv:
 //@    len(ivArg) == b.BlockSize() && sameSlice(ivArg, iv) && DrawnHere(ivArg)
-//@ assert@call[C10,C08] EncodeToString #1 (enc *base64.Encoding, out []byte) uses iv []byte, padded=plaintext []byte iv_prefix:
+//@ assert@call[C10,C08] EncodeToString #each (enc *base64.Encoding, out []byte) uses iv []byte, padded=plaintext []byte iv_prefix:
 //@    len(out) == len(iv) + len(padded) && forall(0, len(iv), func(k int) bool { return out[k] == iv[k] })
 
 //@ contract (GCM).Encrypt
 //@ requires[cfg] cipher: e.cipher != nil
 //@ ensures[C10] nonnil: err == nil ==> result != nil
-//@ assert@call[C10] Seal #1 (aead cipher.AEAD, dst []byte, n []byte, pt []byte) seals_plaintext:
+//@ assert@call[C10] Seal #each (aead cipher.AEAD, dst []byte, n []byte, pt []byte) seals_plaintext:
 //@    len(pt) >= len(plaintext) && forall(0, len(plaintext), func(k int) bool { return pt[k] == plaintext[k] })
 
 //@ contract (RSA).Encrypt
@@ -172,9 +176,9 @@ package xmlenc
 //@ -- the content-encryption key is drawn in this call, wrapped, and handed to the block cipher
 //@ derive@call[C10,C08] Read #each (r io.Reader, p []byte) key_drawn_here:
 //@    r == RandReader |- DrawnHere(p)
-//@ assert@call[C10,C08] field:xmlenc.RSA.keyEncrypter #1 (fn func(RSA, *rsa.PublicKey, []byte) ([]byte, error), ea RSA, pk *rsa.PublicKey, k []byte) uses key []byte wraps_fresh_key:
+//@ assert@call[C10,C08] field:xmlenc.RSA.keyEncrypter #each (fn func(RSA, *rsa.PublicKey, []byte) ([]byte, error), ea RSA, pk *rsa.PublicKey, k []byte) uses key []byte wraps_fresh_key:
 //@    sameSlice(k, key) && len(k) == e.BlockCipher.KeySize() && DrawnHere(k)
-//@ assert@call[C10,C08] Encrypt #1 (bc BlockCipher, k interface{}, pt []byte) uses key []byte encrypts_with_that_key:
+//@ assert@call[C10,C08] Encrypt #each (bc BlockCipher, k interface{}, pt []byte) uses key []byte encrypts_with_that_key:
 //@    keyIs(k, key) && sameSlice(pt, plaintext)
 
 //@ -- package initialisation: every algorithm identifier the package can emit has a registered decrypter
@@ -209,7 +213,8 @@ package xmlenc
 //@ xmlshape[C10,C11] digestMethod
 //@ import ripemd160 "golang.org/x/crypto/ripemd160"
 //@ go func sameFunc(a, b func() hash.Hash) bool
-//@ ensures[C10] digest_table:
+//@ -- (C11: each digest is constructed by its own package's New - `crypto.Hash.New` panics for a hash nobody links in)
+//@ ensures[C10,C11] digest_table:
 //@    SHA1.algorithm == "http://www.w3.org/2000/09/xmldsig#sha1" && sameFunc(SHA1.hash, sha1.New) &&
 //@    SHA256.algorithm == "http://www.w3.org/2000/09/xmldsig#sha256" && sameFunc(SHA256.hash, sha256.New) &&
 //@    SHA512.algorithm == "http://www.w3.org/2000/09/xmldsig#sha512" && sameFunc(SHA512.hash, sha512.New) &&
@@ -223,43 +228,43 @@ package xmlenc
 //@ import hash "hash"
 //@ contract OAEP$1
 //@ requires[cfg] dm: e.DigestMethod != nil && pubKey != nil
-//@ assert@call[C10] Hash #1 (dm DigestMethod) digest_of_value: dm == e.DigestMethod
-//@ assert@call[C10] EncryptOAEP #1 (h hash.Hash, r io.Reader, pk *rsa.PublicKey, msg []byte, label []byte) wraps_key:
+//@ assert@call[C10] Hash #each (dm DigestMethod) digest_of_value: dm == e.DigestMethod
+//@ assert@call[C10] EncryptOAEP #each (h hash.Hash, r io.Reader, pk *rsa.PublicKey, msg []byte, label []byte) wraps_key:
 //@    r == RandReader && pk == pubKey && sameSlice(msg, plaintext) && len(label) == 0
 //@ contract OAEP$2
 //@ requires[cfg] dm: e.DigestMethod != nil && privKey != nil
-//@ assert@call[C10] Hash #1 (dm DigestMethod) digest_of_value: dm == e.DigestMethod
-//@ assert@call[C10] DecryptOAEP #1 (h hash.Hash, r io.Reader, sk *rsa.PrivateKey, ct []byte, label []byte) unwraps_key:
+//@ assert@call[C10] Hash #each (dm DigestMethod) digest_of_value: dm == e.DigestMethod
+//@ assert@call[C10] DecryptOAEP #each (h hash.Hash, r io.Reader, sk *rsa.PrivateKey, ct []byte, label []byte) unwraps_key:
 //@    sk == privKey && sameSlice(ct, ciphertext) && len(label) == 0
 //@ contract OAEP_SHA256$1
 //@ requires[cfg] dm: e.DigestMethod != nil && pubKey != nil
-//@ assert@call[C10] Hash #1 (dm DigestMethod) digest_of_value: dm == e.DigestMethod
-//@ assert@call[C10] EncryptOAEP #1 (h hash.Hash, r io.Reader, pk *rsa.PublicKey, msg []byte, label []byte) wraps_key:
+//@ assert@call[C10] Hash #each (dm DigestMethod) digest_of_value: dm == e.DigestMethod
+//@ assert@call[C10] EncryptOAEP #each (h hash.Hash, r io.Reader, pk *rsa.PublicKey, msg []byte, label []byte) wraps_key:
 //@    r == RandReader && pk == pubKey && sameSlice(msg, plaintext) && len(label) == 0
 //@ contract OAEP_SHA256$2
 //@ requires[cfg] dm: e.DigestMethod != nil && privKey != nil
-//@ assert@call[C10] Hash #1 (dm DigestMethod) digest_of_value: dm == e.DigestMethod
-//@ assert@call[C10] DecryptOAEP #1 (h hash.Hash, r io.Reader, sk *rsa.PrivateKey, ct []byte, label []byte) unwraps_key:
+//@ assert@call[C10] Hash #each (dm DigestMethod) digest_of_value: dm == e.DigestMethod
+//@ assert@call[C10] DecryptOAEP #each (h hash.Hash, r io.Reader, sk *rsa.PrivateKey, ct []byte, label []byte) unwraps_key:
 //@    sk == privKey && sameSlice(ct, ciphertext) && len(label) == 0
 //@ contract OAEP_SHA512$1
 //@ requires[cfg] dm: e.DigestMethod != nil && pubKey != nil
-//@ assert@call[C10] Hash #1 (dm DigestMethod) digest_of_value: dm == e.DigestMethod
-//@ assert@call[C10] EncryptOAEP #1 (h hash.Hash, r io.Reader, pk *rsa.PublicKey, msg []byte, label []byte) wraps_key:
+//@ assert@call[C10] Hash #each (dm DigestMethod) digest_of_value: dm == e.DigestMethod
+//@ assert@call[C10] EncryptOAEP #each (h hash.Hash, r io.Reader, pk *rsa.PublicKey, msg []byte, label []byte) wraps_key:
 //@    r == RandReader && pk == pubKey && sameSlice(msg, plaintext) && len(label) == 0
 //@ contract OAEP_SHA512$2
 //@ requires[cfg] dm: e.DigestMethod != nil && privKey != nil
-//@ assert@call[C10] Hash #1 (dm DigestMethod) digest_of_value: dm == e.DigestMethod
-//@ assert@call[C10] DecryptOAEP #1 (h hash.Hash, r io.Reader, sk *rsa.PrivateKey, ct []byte, label []byte) unwraps_key:
+//@ assert@call[C10] Hash #each (dm DigestMethod) digest_of_value: dm == e.DigestMethod
+//@ assert@call[C10] DecryptOAEP #each (h hash.Hash, r io.Reader, sk *rsa.PrivateKey, ct []byte, label []byte) unwraps_key:
 //@    sk == privKey && sameSlice(ct, ciphertext) && len(label) == 0
 //@ contract PKCS1v15$1
 //@ requires[cfg] key: pubKey != nil
-//@ assert@call[C10] EncryptPKCS1v15 #1 (r io.Reader, pk *rsa.PublicKey, msg []byte) wraps_key:
+//@ assert@call[C10] EncryptPKCS1v15 #each (r io.Reader, pk *rsa.PublicKey, msg []byte) wraps_key:
 //@    r == RandReader && pk == pubKey && sameSlice(msg, plaintext)
 //@ contract PKCS1v15$2
 //@ requires[cfg] key: privKey != nil
 //@ -- rsa.DecryptPKCS1v15 returns the message whatever its length: the key size is not tied to the block cipher the
 //@ -- registered instance happens to carry
-//@ assert@call[C10] DecryptPKCS1v15 #1 (r io.Reader, sk *rsa.PrivateKey, ct []byte) unwraps_key:
+//@ assert@call[C10] DecryptPKCS1v15 #each (r io.Reader, sk *rsa.PrivateKey, ct []byte) unwraps_key:
 //@    sk == privKey && sameSlice(ct, ciphertext)
 
 //@ -- constructors: modes and their identifiers, with both closures present
